@@ -16,7 +16,7 @@ type vfVga struct {
 
 func vfNewVga() *vfVga {
 	w := uint32(1 + zzverif.Choice("cols", zzverif.Param("maxcols", 3, 4)))
-	h := uint32(1 + zzverif.Choice("rows", 3))
+	h := uint32(1 + zzverif.Choice("rows", zzverif.Param("maxrows", 3, 3)))
 	v := &vfVga{w: w, h: h}
 	v.cons = NewVgaTextConsole(w, h, 0)
 	v.cons.fb = make([]uint16, w*h)
@@ -48,6 +48,7 @@ func Verif_C19_vga_write() {
 	zzverif.Reach("done")
 }
 
+//verif:split 4
 func Verif_C19_vga_fill() {
 	v := vfNewVga()
 	fg, bg := zzverif.U8("fg"), zzverif.U8("bg")
@@ -77,6 +78,7 @@ func Verif_C19_vga_fill() {
 	zzverif.Reach("done")
 }
 
+//verif:split 3
 func Verif_C19_vga_scroll() {
 	v := vfNewVga()
 	lines := zzverif.U32("lines")
